@@ -126,3 +126,52 @@ pub fn one_cell(obj: &str, k: KeyCode, m: u32, h: HandleControl) -> i64 {
         },
     }
 }
+
+/// EventDecoder<AnyLayout> with real layouts: for each of the ten layouts, each state of the
+/// TLC-exported event automaton with layout id 0 (512 modifier sets x 2 modes, reached by the
+/// generic access paths of the table) and each of the 124 keys, press the key and record what
+/// process_keyevent returns. Same row format as `layouts` (form "event"), so that the table can be
+/// compared cell by cell with the layout's own table: C14 with real layouts.
+pub fn eventlayouts(event_table: &str, w: &mut dyn Write) {
+    let auto = crate::replay::load(event_table);
+    let acc = crate::replay::access_paths(&auto);
+    for li in 0..10u8 {
+        // rows[key][mode][mods]
+        let mut rows = vec![vec![vec![-2000000i64; 512]; 2]; 124];
+        for (s, st) in auto.states.iter().enumerate() {
+            let (m, mode, lay) = (st[0].as_u64().unwrap() as usize, st[1].as_str().unwrap(), st[2].as_u64().unwrap());
+            if lay != 0 {
+                continue;
+            }
+            let path = match &acc[s] {
+                Some(p) => p,
+                None => continue,
+            };
+            let hi = if mode == "Map" { 0 } else { 1 };
+            for (ki, k) in ALL_KEYS.iter().enumerate() {
+                let mut d = make(&format!("eventany:{}", li));
+                for &a in path {
+                    let _ = apply_caught(&mut d, &auto.alphabet[a]);
+                }
+                rows[ki][hi][m] = match apply_caught(&mut d, &Input::Key(*k, KeyState::Down)) {
+                    Ok(st) => match st.out[0].as_str() {
+                        Some("key") => st.out[1].as_i64().unwrap(),
+                        _ => -3000000, // no decoded key for a press
+                    },
+                    Err(_) => -1000000,
+                };
+            }
+        }
+        for (ki, k) in ALL_KEYS.iter().enumerate() {
+            for (hi, h) in ALL_MODES.iter().enumerate() {
+                writeln!(
+                    w,
+                    "{}",
+                    json!({"obj": format!("Event({})", LAYOUT_NAMES[li as usize]), "form": "event", "layout": LAYOUT_NAMES[li as usize],
+                           "k": key_name(*k), "h": mode_name(*h), "o": rows[ki][hi]})
+                )
+                .unwrap();
+            }
+        }
+    }
+}
